@@ -7,7 +7,7 @@
                        TimedCacheManager.join (which entries carry a time stamp)
      rdd.py       PersistedRDD.compute, PartitionwiseSampledRDD.compute, MapPartitionsRDD.compute,
                   RDD.compute (source partition), RDD.coalesce (regrouping of the job result)
-     samplers.py  BernoulliSampler
+     samplers.py  BernoulliSampler, PoissonSampler / pysparkling_poisson (numpy absent)
    Definitions only; the proofs are in PV.Proofs.Sched.
 
    A task is a program (tree of gates, actions and has()-tests) obtained from the dataset lineage by [compile].
@@ -53,11 +53,15 @@ Definition c_clone (c : cache) (i : Z) : cache := filter (fun kv => snd (fst kv)
 
 (* ---------------------------------------------------------------------------------------------- *)
 (* dataset lineage *)
+Inductive sampler :=
+| SBern (fraction : float)                      (* sample(False, fraction, seed): BernoulliSampler(fraction) *)
+| SPoisson (lam : float) (exp_neg_lam : float). (* sample(True, lam, seed): PoissonSampler(lam); exp_neg_lam = math.exp(-lam) *)
+
 Inductive rdd :=
 | Src                                           (* RDD.compute: the partition's own list *)
 | Map (f : Z -> list Z) (r : rdd)               (* map / filter / flatMap: lazy, element-wise, pure *)
 | Persist (id : Z) (r : rdd)                    (* PersistedRDD with _rdd_id = id *)
-| Sample (seed : Z) (fraction : float) (r : rdd). (* sample(False, fraction, seed): Bernoulli sampler *)
+| Sample (seed : Z) (smp : sampler) (r : rdd).    (* sample(withReplacement, fraction, seed) *)
 
 (* the function applied by a task to the iterator over its partition *)
 Inductive tfun :=
@@ -107,12 +111,36 @@ Section WithDraws.
 (* the Mersenne twister as an oracle: [draw s n] is the n-th random() of random.Random(s) *)
 Variable draw : Z -> nat -> float.
 
-Fixpoint bern_from (s : Z) (fr : float) (n : nat) (xs : list Z) : list Z :=
-  match xs with
-  | [] => []
-  | x :: xs' => if PrimFloat.ltb (draw s n) fr then x :: bern_from s fr (S n) xs' else bern_from s fr (S n) xs'
+(* pysparkling_poisson(lambda_, rng) after its first two lines:
+     while True: prod *= rng.random(); if prod > exp_neg_lambda: n += 1  else: return n
+   [fuel] bounds the number of copies of one element in the model; the flag tells whether it sufficed *)
+Definition poisson_fuel : nat := 200.
+Fixpoint poisson_loop (s : Z) (e : float) (fuel : nat) (prod : float) (n : nat) (cnt : nat) : nat * nat * bool :=
+  match fuel with
+  | O => (cnt, n, false)
+  | S fuel' =>
+      let prod' := PrimFloat.mul prod (draw s n) in
+      if PrimFloat.ltb e prod' then poisson_loop s e fuel' prod' (S n) (S cnt) else (cnt, S n, true)
   end.
-Definition bern (s : Z) (fr : float) (xs : list Z) : list Z := bern_from s fr 0%nat xs.
+(* sampler(x, rng) on a generator that has already produced n values: (copies of x, values produced afterwards, fuel ok) *)
+Definition sample_count (s : Z) (smp : sampler) (n : nat) : nat * nat * bool :=
+  match smp with
+  | SBern fr => ((if PrimFloat.ltb (draw s n) fr then 1 else 0)%nat, S n, true)
+  | SPoisson lam e =>
+      if PrimFloat.eqb lam 0 then (0%nat, n, true) else poisson_loop s e poisson_fuel 1 n 0%nat
+  end.
+(* (x for x in xs for _ in range(sampler(x, rng))) *)
+Fixpoint samp_run (s : Z) (smp : sampler) (n : nat) (xs : list Z) : list Z * nat * bool :=
+  match xs with
+  | [] => ([], n, true)
+  | x :: xs' =>
+      let '(c, n', ok) := sample_count s smp n in
+      let '(ys, n'', ok') := samp_run s smp n' xs' in
+      (repeat x c ++ ys, n'', ok && ok')
+  end.
+Definition samp_from (s : Z) (smp : sampler) (n : nat) (xs : list Z) : list Z := fst (fst (samp_run s smp n xs)).
+Definition samp_next (s : Z) (smp : sampler) (n : nat) (xs : list Z) : nat := snd (fst (samp_run s smp n xs)).
+Definition samp (s : Z) (smp : sampler) (xs : list Z) : list Z := samp_from s smp 0%nat xs.
 
 (* what the dataset [r] contains in partition [i] whose source list is [p] *)
 Fixpoint eval (r : rdd) (i : Z) (p : list Z) : list Z :=
@@ -120,15 +148,15 @@ Fixpoint eval (r : rdd) (i : Z) (p : list Z) : list Z :=
   | Src => p
   | Map f r' => flat_map f (eval r' i p)
   | Persist _ r' => eval r' i p
-  | Sample s fr r' => bern (s + i) fr (eval r' i p)
+  | Sample s fr r' => samp (s + i) fr (eval r' i p)
   end.
 
 (* ---------------------------------------------------------------------------------------------- *)
 (* iterators: a materialised list wrapped in lazy element-wise stages *)
 Inductive lop :=
 | LMap (f : Z -> list Z)
-| LBernOwn (s : Z) (fr : float)       (* genexpr that owns random.Random(s) *)
-| LBernGlobal (fr : float).           (* (variant) genexpr drawing from the module-global generator *)
+| LSampOwn (s : Z) (fr : sampler)     (* genexpr that owns random.Random(s) *)
+| LSampGlobal (fr : sampler).         (* (variant) genexpr drawing from the module-global generator *)
 Record value := { v_base : list Z; v_pend : list lop }.
 Definition rng := (Z * nat)%type.     (* module-global generator: (seed, draws taken since seeding) *)
 
@@ -139,8 +167,8 @@ Fixpoint force_ops (ops : list lop) (xs : list Z) (g : rng) : list Z * rng :=
   match ops with
   | [] => (xs, g)
   | LMap f :: o => force_ops o (flat_map f xs) g
-  | LBernOwn s fr :: o => force_ops o (bern s fr xs) g
-  | LBernGlobal fr :: o => force_ops o (bern_from (fst g) fr (snd g) xs) (fst g, (snd g + length xs)%nat)
+  | LSampOwn s fr :: o => force_ops o (samp s fr xs) g
+  | LSampGlobal fr :: o => force_ops o (samp_from (fst g) fr (snd g) xs) (fst g, samp_next (fst g) fr (snd g) xs)
   end.
 
 (* state reachable by every task of a job when the backend does not copy *)
@@ -170,7 +198,7 @@ Record lstate := {
 Inductive act :=
 | ASource                       (* split.x() *)
 | APush (o : lop)               (* MapPartitionsRDD.compute: f(tc, index, iterator) *)
-| APushBernOwn (s : Z) (fr : float)   (* the genexpr of PartitionwiseSampledRDD.compute, rng = Random(s + index) *)
+| APushSampOwn (s : Z) (fr : sampler)   (* the genexpr of PartitionwiseSampledRDD.compute, rng = Random(s + index) *)
 | AForce                        (* data = list(iterator) *)
 | AAdd (id : Z)                 (* cache_manager.add((id, index), data) *)
 | AGet (id : Z)                 (* data = cache_manager.get((id, index)) *)
@@ -180,7 +208,7 @@ Inductive act :=
 | AAddShared (id : Z)           (* cache_manager.add(self._cid, data) *)
 | AGetShared (id : Z)           (* data = cache_manager.get(self._cid) *)
 | ASeedGlobal (s : Z)           (* random.seed(self.seed + split.index) *)
-| APushBernGlobal (fr : float).
+| APushSampGlobal (fr : sampler).
 
 Inductive cond :=
 | CHas (id : Z)                 (* cache_manager.has((id, index)) *)
@@ -194,7 +222,7 @@ Inductive prog :=
 
 Definition act_local (a : act) : bool :=
   match a with
-  | ASource | APush (LMap _) | APush (LBernOwn _ _) | APushBernOwn _ _ | AForce | AAdd _ | AGet _ => true
+  | ASource | APush (LMap _) | APush (LSampOwn _ _) | APushSampOwn _ _ | AForce | AAdd _ | AGet _ => true
   | AFinish tf => tfun_pure tf
   | _ => false
   end.
@@ -229,8 +257,8 @@ Definition do_act (idx : Z) (part : list Z) (a : act) (sh : shared) (l : lstate)
   match a with
   | ASource => (sh, set_val l {| v_base := part; v_pend := [] |})
   | APush o => (sh, push l o)
-  | APushBernOwn s fr => (sh, push l (LBernOwn (s + idx) fr))
-  | APushBernGlobal fr => (sh, push l (LBernGlobal fr))
+  | APushSampOwn s fr => (sh, push l (LSampOwn (s + idx) fr))
+  | APushSampGlobal fr => (sh, push l (LSampGlobal fr))
   | AForce => let '(xs, g) := forced sh l in (set_rng sh g, set_val l {| v_base := xs; v_pend := [] |})
   | AAdd id => (sh, set_cache l (c_set (l_cache l) (id, idx) (v_base (l_val l))))
   | AGet id =>
@@ -285,9 +313,9 @@ Fixpoint compile (v : variant) (r : rdd) (k : prog) : prog :=
   | Sample s fr r' =>
       if v_global_rng v
       then PGate L_rng (PAct (ASeedGlobal s) (PGate L_if_np (PGate L_gen (PGate L_for
-             (compile v r' (PGate L_gen (PAct (APushBernGlobal fr) k)))))))
+             (compile v r' (PGate L_gen (PAct (APushSampGlobal fr) k)))))))
       else PGate L_rng (PGate L_nprng (PGate L_if_np (PGate L_gen (PGate L_for
-             (compile v r' (PGate L_gen (PAct (APushBernOwn s fr) k)))))))
+             (compile v r' (PGate L_gen (PAct (APushSampOwn s fr) k)))))))
   end.
 
 Definition task_prog (v : variant) (r : rdd) (tf : tfun) : prog := compile v r (PAct (AFinish tf) PDone).
